@@ -32,7 +32,7 @@ ASSUMPTIONS = ['direct execution of the instruction list on ndarray / UTPM opera
                'comparison is rtol 1e-13 (bit-identical in practice; the count of non-bit-identical results is reported)']
 
 DEPTH = {'quick': 2, 'thorough': 3}
-REC_KINDS = ['nd', 'u11', 'u22', 'u11+pause', 'u11+interleave']
+REC_KINDS = ['nd', 'u11', 'u22', 'u11+pause', 'u11+interleave', 'nd+split', 'u22+split']
 INPUTS = [('nd', 0), ('nd', 1), ('u11', 0), ('u22', 0), ('u31', 1)]
 CHUNK = 30
 
@@ -147,10 +147,58 @@ def pauser_plain(cg, pause, probe):
     return before
 
 
-def record_plain(prog, x0, pause=None, interleave=False):
+def split_names(prog):
+    used = sorted(set(r for ins in prog for r in ins[1] if r in PR.PRELUDE))
+    spare = [r for r in ('V1', 'S1', 'M1', 'V0') if r not in used][0]
+    return used + [spare]
+
+
+def split_values(prog, x0):
+    """every prelude register the program reads (plus one it does not) as an operand of its own, copied out of x0"""
+    vals = []
+    for r in split_names(prog):
+        v = PR.PRELUDE[r](x0)
+        vals.append(UTPM(v.data.copy()) if isinstance(v, UTPM) else np.array(v, dtype=float, copy=True))
+    return vals
+
+
+def split_direct(prog, x0):
+    """direct execution with separate operands; returns the tuple of ALL distinct results (last first) + the spare input"""
+    names = split_names(prog)
+    vals = split_values(prog, x0)
+    y, regs = PR.run(prog, PR.Split(dict(zip(names, vals))))
+    return y, regs, dict(zip(names, vals))
+
+
+def dep_keys(prog, regs):
+    keys, objs = [], []
+    for k in range(len(prog) - 1, -1, -1):
+        f = regs['r%d' % k]
+        if isinstance(f, Function) and not any(f is g for g in objs):
+            keys.append('r%d' % k)
+            objs.append(f)
+    return keys, objs
+
+
+def setup_split(prog, x0):
+    names = split_names(prog)
+    F = [Function(v) for v in split_values(prog, x0)]
+    return names, F
+
+
+def record_plain(prog, x0, pause=None, interleave=False, split=False):
     other = other_graph() if interleave else None
     Function.cgraph = None
     cg = CGraph()
+    if split:
+        names, F = setup_split(prog, x0)
+        y, regs = PR.run(prog, PR.Split(dict(zip(names, F))))
+        cg.trace_off()
+        keys, objs = dep_keys(prog, regs)
+        cg.independentFunctionList = list(F)
+        cg.dependentFunctionList = objs + [F[-1]]          # the untouched independent is returned as well
+        cg.dep_keys = keys + [names[-1]]
+        return cg, F, y
     x = Function(x0)
     y, regs = PR.run(prog, x, before=pauser(cg, pause, x, other))
     cg.trace_off()
@@ -159,22 +207,32 @@ def record_plain(prog, x0, pause=None, interleave=False):
     return cg, x, y
 
 
-def record_checked(prog, x0, stats, pause=None, interleave=False):
+def record_checked(prog, x0, stats, pause=None, interleave=False, split=False):
     """record with logging; returns (cg, x, y, failures[list of (kind, detail)])"""
     fails = []
     other = other_graph() if interleave else None
     Function.cgraph = None
     with Log() as lg:
         cg = CGraph()
-        x = Function(x0)
         lg.only = cg
-        y, regs = PR.run(prog, x, before=pauser(cg, pause, x, other))
+        if split:
+            names, F = setup_split(prog, x0)
+            x = F[0]
+            indep = list(F)
+            y, regs = PR.run(prog, PR.Split(dict(zip(names, F))))
+        else:
+            x = Function(x0)
+            indep = [x]
+            y, regs = PR.run(prog, x, before=pauser(cg, pause, x, other))
         cg.trace_off()
-    cg.independentFunctionList = [x]
+    cg.independentFunctionList = indep
     cg.dependentFunctionList = [y]
     # (a) values while recording == direct execution on the unwrapped operand
     x0c = UTPM(x0.data.copy()) if isinstance(x0, UTPM) else np.array(x0, copy=True)
-    yd, regsd = PR.run(prog, x0c)
+    if split:
+        yd, regsd, _ = split_direct(prog, x0c)
+    else:
+        yd, regsd = PR.run(prog, x0c)
     for ref in regs:
         if not same(regs[ref], regsd.get(ref), stats):
             fails.append(('recording-value-differs', {'register': ref}))
@@ -199,7 +257,7 @@ def record_checked(prog, x0, stats, pause=None, interleave=False):
         if f.func == Function.Id:
             if isinstance(f.x, Function):
                 fails.append(('constant-wrapped-twice', {'node': k}))
-            if f is not x and k not in used:
+            if not any(f is g for g in indep) and k not in used:
                 fails.append(('unused-identity-node', {'node': k}))
     if len(set(id(f) for f in fl)) != len(fl):
         fails.append(('node-recorded-twice', {}))
@@ -207,7 +265,7 @@ def record_checked(prog, x0, stats, pause=None, interleave=False):
     n0 = len(fl)
     ids0 = [id(f) for f in fl]
     try:
-        PR.run(prog, x)
+        PR.run(prog, PR.Split(dict(zip(names, F))) if split else x)
     except Exception:
         pass
     if len(cg.functionList) != n0 or [id(f) for f in cg.functionList] != ids0 or cg.functionCount != n0:
@@ -222,18 +280,22 @@ def split_kind(reckind):
         return reckind[:-6], 'last'
     if reckind.endswith('+interleave'):
         return reckind[:-11], 'interleave'
+    if reckind.endswith('+split'):
+        return reckind[:-6], 'split'
     return reckind, None
 
 
 def pause_index(prog, pause):
-    return None if pause is None else len(prog) - 1
+    return None if pause in (None, 'split') else len(prog) - 1
 
 
 class Sys(object):
     def __init__(self, prog, reckind, seed):
         rk, pause = split_kind(reckind)
         x0 = make_input(rk, 3, seed)
-        self.cg, self.x, self.y = record_plain(prog, x0, pause_index(prog, pause), interleave=(pause == 'interleave'))
+        self.prog = prog
+        self.split = (pause == 'split')
+        self.cg, self.x, self.y = record_plain(prog, x0, pause_index(prog, pause), interleave=(pause == 'interleave'), split=self.split)
 
 
 def state_key(sys_):
@@ -259,8 +321,9 @@ def explore_program(prog, reckind, tier, seed, only_history=None):
         y_direct, _ = PR.run(prog, UTPM(x0.data.copy()) if isinstance(x0, UTPM) else x0.copy())
     except Exception:
         return None, {'skip': 'forward_unsupported'}, stats
+    split = (pause == 'split')
     try:
-        cg, x, y, rfails = record_checked(prog, x0, stats, pause_index(prog, pause), interleave=(pause == 'interleave'))
+        cg, x, y, rfails = record_checked(prog, x0, stats, pause_index(prog, pause), interleave=(pause == 'interleave'), split=split)
     except AssertionError as e:
         Function.cgraph = None
         if 'recorded-while-off' in str(e) or 'recording-target-changed' in str(e):
@@ -273,10 +336,22 @@ def explore_program(prog, reckind, tier, seed, only_history=None):
         return None, {'skip': 'untraceable'}, stats
     refs = {}
     usable = []
+    dkeys = build_keys = None
+    if split:
+        try:
+            build_keys = Sys(prog, reckind, seed).cg.dep_keys
+        except Exception:
+            Function.cgraph = None
+            return None, {'skip': 'untraceable'}, stats
+        Function.cgraph = None
     for inp in INPUTS:
         try:
-            v, _ = PR.run(prog, make_input(inp[0], inp[1], seed))
-            refs[inp] = v
+            if split:
+                yv, rv, iv = split_direct(prog, make_input(inp[0], inp[1], seed))
+                refs[inp] = tuple(rv[k] if k in rv else iv[k] for k in build_keys)
+            else:
+                v, _ = PR.run(prog, make_input(inp[0], inp[1], seed))
+                refs[inp] = v
             usable.append(inp)
         except Exception:
             pass
@@ -288,6 +363,8 @@ def explore_program(prog, reckind, tier, seed, only_history=None):
         return usable
 
     def step(s, ev):
+        if s.split:
+            return tuple(s.cg.function(split_values(prog, make_input(ev[0], ev[1], seed))))
         return s.cg.function([make_input(ev[0], ev[1], seed)])[0]
 
     def check(hist, ev, obs, exc, s):
